@@ -707,7 +707,16 @@ func zzC03Accepted() {
 	w := zzNewExch("post")
 	seenAtStatus := -1
 	w.onStatus = func(code int) { seenAtStatus = vChanLen(c.incoming) }
-	zzPOST(c, w, version, msgs...)
+	// the client may be gone by the time its POST is processed (it sent its answer and hung up without waiting for the
+	// empty 202): the request's context is done, which is no reason to throw away a message that was received whole
+	departed := vBool("clientGoneBeforeThePostIsProcessed")
+	zzPOSTWith(c, w, version, func(req *http.Request) {
+		if departed {
+			ctx, cancel := context.WithCancel(req.Context())
+			cancel()
+			*req = *req.WithContext(ctx)
+		}
+	}, msgs...)
 	if closing {
 		vAssert(w.code == http.StatusNotFound, "C03.closing-session-not-accepted")
 		vReach("closing")
